@@ -1,6 +1,7 @@
 package rules
 
 import (
+	"go/token"
 	"fmt"
 	"go/types"
 	"sort"
@@ -440,7 +441,24 @@ func checkCallbackContext(e *Env, f *ssa.Function) {
 		n := 0
 		for _, ref := range core.Referrers(p) {
 			c, ok := ref.(*ssa.Call)
-			if !ok || c.Call.Value != p {
+			if ok && c.Call.Value != p {
+				// the callback is handed on to another operation: it then runs in THAT operation's lock context
+				callee := core.CalleeName(c)
+				got, known := callbackLock[callee]
+				compatible := known && (got == want || want == "any" || (want == "r" && got == "w"))
+				e.R.Check(compatible, rule, construct+" via "+shortType(callee), e.pos(c), "forwarded to "+callee+", which runs it in the same lock context ("+got+")",
+					fmt.Sprintf("the callback is forwarded to %s, which runs it in lock context %q, but %s documents %q: concurrent callers' callbacks can overlap", callee, got, name, want))
+				continue
+			}
+			_, isDbg := ref.(*ssa.DebugRef)
+			if b, isB := ref.(*ssa.BinOp); isB && (b.Op == token.EQL || b.Op == token.NEQ) {
+				isDbg = true // nil test of an optional callback
+			}
+			if !ok && !isDbg {
+				e.R.Undecided(rule, construct+":escapes", e.pos(ref), "the callback escapes (stored or captured) instead of being called in the method's own critical section")
+				continue
+			}
+			if !ok {
 				continue
 			}
 			n++
